@@ -30,7 +30,7 @@ ObjSeqs(k) == IF Cardinality(DeadObjs(S)) < k THEN {} ELSE {LowestK(DeadObjs(S),
 SrcLists == UNION {[1..n -> LiveVec(S)] : n \in 1..MaxCols}
 
 ANewVec == On("NewVec") /\ DeadObjs(S) # {} /\ \E vals \in ValSeqs, ft \in BOOLEAN, s \in One :
-             (ft => On("ShareVec")) /\ Do(NewVec(S, vals, ft, s), Act("NewVec", 0, s, IF ft THEN 1 ELSE 0, 0, vals, NoName, ""))
+             (ft => On("ShareVec") /\ Len(vals) > 0) /\ Do(NewVec(S, vals, ft, s), Act("NewVec", 0, s, IF ft THEN 1 ELSE 0, 0, vals, NoName, ""))
 AShareVec == On("ShareVec") /\ DeadObjs(S) # {} /\ \E s \in S.usertup :
              Do(ShareVec(S, s), Act("ShareVec", 0, s, 0, 0, <<>>, NoName, ""))
 ADropTuple == On("ShareVec") /\ \E s \in S.usertup : Do(DropTuple(S, s), Act("DropTuple", 0, s, 0, 0, <<>>, NoName, ""))
